@@ -3,3 +3,4 @@ import SakuraVerif.Props.C02
 import SakuraVerif.Props.C20
 import SakuraVerif.Gen.Tables
 import SakuraVerif.Props.C04
+import SakuraVerif.Props.C15
